@@ -66,11 +66,24 @@ func only(op string, n int) bool {
 	o := os.Getenv("VERIF_C09_ONLY")
 	ok := o == "" || o == fmt.Sprintf("%s:%d", op, n)
 	if ok {
+		// a scenario that took long is worth a line of its own (diagnosis of slow runs)
+		now := time.Now()
+		if !lastMark.IsZero() && now.Sub(lastMark) > 5*time.Second && lastName != fmt.Sprintf("%s %d", op, n) {
+			fmt.Fprintf(os.Stderr, "slow scenario %s: %.1fs\n", lastName, now.Sub(lastMark).Seconds())
+		}
+		if lastName != fmt.Sprintf("%s %d", op, n) {
+			lastMark, lastName = now, fmt.Sprintf("%s %d", op, n)
+		}
 		// marker for the check: which scenario was running if the process dies (a panic in a library goroutine)
 		fmt.Fprintf(os.Stderr, "scenario %s %d\n", op, n)
 	}
 	return ok
 }
+
+var (
+	lastMark time.Time
+	lastName string
+)
 
 // scRand: an independent PRNG per scenario (seed, part, scenario number).
 func scRand(seed int64, part, n int) *rand.Rand {
